@@ -109,6 +109,17 @@ pub fn builder_search(rng: &mut crate::Rng, budget: u64) -> Result<u64, (Vec<u8>
     history.push(Message::Empty);
     let mut n = 0u64;
     let mut targets: Vec<Message> = vec![];
+    // messages without a wire form are refused (an error value, not a panic), on a fresh and on a used builder (C09)
+    for (what, m) in [("Empty", Message::Empty), ("Corrupt", Message::Corrupt), ("MsgNotSupported", Message::MsgNotSupported(rtcm_rs::msg::message::MsgNotSupportedT { message_number: 4072 })),
+                      ("MsgNotSupported(1005)", Message::MsgNotSupported(rtcm_rs::msg::message::MsgNotSupportedT { message_number: 1005 }))] {
+        n += 1;
+        let r = std::panic::catch_unwind(move || { let mut b = MessageBuilder::new(); let first = b.build_message(&m).map(|x| x.len()).map_err(|e| format!("{:?}", e)); let again = b.build_message(&m).map(|x| x.len()).map_err(|e| format!("{:?}", e)); (first, again) });
+        match r {
+            Err(_) => return Err((vec![], format!("build_message panics for Message::{} (a message without a wire form must be refused with an error)", what))),
+            Ok((Ok(l), _)) | Ok((_, Ok(l))) => return Err((vec![], format!("build_message returns a frame of {} bytes for Message::{}", l, what))),
+            _ => {}
+        }
+    }
     for num in &nums {
         for k in 0..3u64 {
             let len = [6usize, 40, 300][k as usize];
